@@ -508,9 +508,7 @@ def impl_ops(case):
                 wi = [("ENTRYTYPE", etype), ("ID", ekey)] + [(f.key, f.value) for f in fs]
                 if len(its) != len(wi) or not all(a[0] == b[0] and a[1] is b[1] for a, b in zip(its, wi)):
                     ok, detail = False, where + "items() %r does not list the fields" % (its,)
-            if ok:
-                if r[0] == "ok" and isinstance(r[1], Field):
-                    log.see(r[1], "returned by call %d" % n)
+            if ok and (code in MUTATORS or last):
                 msg = log.altered()
                 if msg:
                     ok, detail = False, where + msg
@@ -559,7 +557,7 @@ def entry_vs_dict(e, ref, log, etype, ekey, Field, absent):
     shown = [(f.key, f.value) if isinstance(f, Field) else f for f in fs]
     held = [log.content(w)[:2] for w in want]
     if len(fs) != len(want) or not all(f is w for f, w in zip(fs, want)):
-        return "fields are %r, the mapping holds %r" % (shown, held)
+        return "fields are %r, the mapping holds %r%s" % (shown, held, " (other Field objects than the ones stored)" if shown == held else "")
     if not all(log.intact(f) for f in fs):
         return "fields read %r, the mapping holds %r" % (shown, held)
     fd = e.fields_dict
@@ -676,6 +674,14 @@ def impl_multi(case):
                         ok, detail = fail(n, step, "entry %d: position %d holds %r after the assignment" % (t, pos, f))
                         break
                     log.see(f, "created by the item assignment of step %d" % n)
+                    if not log.intact(f):
+                        holders = [j for j, rr in enumerate(refs) if j != t and any(w is f for w in rr.values())]
+                        ok, detail = fail(n, step, "entry %d: the assignment wrote into a Field object that existed before instead "
+                                          "of binding the key to a new field: %s; entries that hold the same object and were not "
+                                          "operated on: %r (rebinding a key in one dict does not change what another dict, or an "
+                                          "earlier get, holds)" % (t, log.altered(), [
+                                              (j, [(x.key, x.value) for x in entries[j].fields]) for j in holders]))
+                        break
                     ref[k] = f
             elif code == O_POP:
                 d = op[2]
